@@ -24,7 +24,8 @@ FUNCTIONS = {
             (RR, TR + 'testTearDown'), (RR, TR + 'startTest'), (RR, TR + 'stopTest'), (RR, TR + 'addSkip'), PROTOCOL],
     'C08': [('filter_c08', 'filter.build_filtering_func'), ('find_c14', 'find.find_suites'),
             ('select_c03', 'filter.Filter.global_setup'), ('select_c03', 'find.find_tests')],
-    'C12': [(RR, TR + 'startTest'), (RR, TR + 'addSkip'), PROTOCOL, RUN_TESTS],
+    'C12': [(RR, TR + 'startTest'), (RR, TR + 'addSkip'), PROTOCOL, RUN_TESTS, RUNNER_LOOP,
+            ('process_c07', 'process.SubProcess.report')],
     'C13': [(RR, TR + '__init__'), (RR, TR + '_setUpStdStreams'), (RR, TR + '_restoreStdStreams'),
             (RR, TR + 'startTest'), (RR, TR + 'stopTest')] + EVENTS + [PROTOCOL, RUN_TESTS],
     'C16': [(RR, TR + m) for m in ('addError', 'addFailure', 'addUnexpectedSuccess', 'addSubTest')]
@@ -40,7 +41,7 @@ FUNCTIONS = {
            + EVENTS + [PROTOCOL, RUN_TESTS],      # sys.stdout / sys.stderr: everything the restoration argument uses
     'C09': [('find_c09', 'find.tests_from_suite'), ('find_c15', 'options.get_options'),
             ('select_c03', 'filter.Filter.global_setup')],
-    'C11': [('shuffle_c11', 'shuffle.Shuffle.global_setup')],
+    'C11': [('shuffle_c11', 'shuffle.Shuffle.__init__'), ('shuffle_c11', 'shuffle.Shuffle.global_setup')],
     'C15': [('find_c15', 'find.remove_stale_bytecode'), ('find_c15', 'options.get_options')],
     'C20': [('digraph_c20', 'digraph.DiGraph.sccs')],
     'C03': [('find_c09', 'find.tests_from_suite'), ('select_c03', 'find.find_tests'),
